@@ -246,7 +246,7 @@ func TestVerifC17History(t *testing.T) {
 
 			return cs
 		}
-		h := vc17NewHandler(dummy(nMain), dummy(nFb), backoff, tmpl, seed)
+		h := vc17NewHandler(dummy(nMain), dummy(nFb), backoff, 0, tmpl, seed)
 		var mains, fbs []vc17Node
 		var fakes []*vc17Fake
 		for i := range nMain {
